@@ -38,7 +38,9 @@ struct Options {
     std::string only_op;       // empty = all
     bool replay;
     std::vector<std::string> replay_args;  // hex blobs
-    Options() : thorough(false), seed(0), replay(false) {}
+    unsigned shard_k, shard_n;  // run only the explorations whose running index is k modulo n (n == 0: all)
+    unsigned explore_index;
+    Options() : thorough(false), seed(0), replay(false), shard_k(0), shard_n(0), explore_index(0) {}
 };
 
 inline Options& opt() {
@@ -47,9 +49,13 @@ inline Options& opt() {
 }
 
 inline bool selected(const std::string& subject, const std::string& op) {
-    const Options& o = opt();
+    Options& o = opt();
     if (!o.only_subject.empty() && o.only_subject != subject) return false;
     if (!o.only_op.empty() && o.only_op != op) return false;
+    if (o.shard_n && !o.replay) {
+        unsigned idx = o.explore_index++;
+        if (idx % o.shard_n != o.shard_k) return false;
+    }
     return true;
 }
 
@@ -463,6 +469,7 @@ inline int parse_args(int argc, char** argv) {
             if (c != std::string::npos) o.only_op = s.substr(c + 1);
         }
         else if (a == "--replay") { o.replay = true; }
+        else if (a == "--shard" && i + 1 < argc) { std::sscanf(argv[++i], "%u/%u", &o.shard_k, &o.shard_n); }
         else if (a == "--arg" && i + 1 < argc) { o.replay_args.push_back(argv[++i]); }
         else { std::fprintf(stderr, "unknown argument %s\n", a.c_str()); return 2; }
     }
@@ -479,6 +486,12 @@ template<template<class> class F, class T, unsigned N, bool E = vexists<T, N>::v
 struct run_if { static void go() {} };
 template<template<class> class F, class T, unsigned N>
 struct run_if<F, T, N, true> { static void go() { F<avel::Vector<T, N> >::run(); } };
+
+template<class T>
+struct max_width {
+    static const unsigned value = vexists<T, 64>::value ? 64 : vexists<T, 32>::value ? 32 : vexists<T, 16>::value ? 16 :
+                                  vexists<T, 8>::value ? 8 : vexists<T, 4>::value ? 4 : vexists<T, 2>::value ? 2 : 1;
+};
 
 template<template<class> class F, class T>
 inline void for_each_width() {
